@@ -309,6 +309,7 @@ def probe():
   except Exception as e:  # pylint: disable=broad-except
     out['F24-tonnx-sown-tuples'] = {'fails': True, 'err': type(e).__name__, 'msg': str(e)[:160]}
   out['sow_reduce_histories'] = sow_reduce_histories()
+  out['tolinen_skip_rng'] = tolinen_skip_rng()
   out['tolinen_partition_specs'] = tolinen_partition_specs()
   m = bridge.ToNNX(Top(), rngs=nnx.Rngs(0)).lazy_init(jnp.ones(()))
   m(jnp.ones(()), mutable=['batch_stats'])
@@ -377,6 +378,43 @@ def sow_reduce_histories():
           break
     except Exception as e:  # pylint: disable=broad-except
       bad.append({'schedule': sched, 'exc': type(e).__name__, 'msg': str(e)[:200]})
+  return bad
+
+
+def tolinen_skip_rng():
+  """ToLinen(skip_rng=True) around an NNX module that builds its own RNG streams: the rngs given to Linen apply still seed those streams --
+  the wrapper returns what the NNX module returns with the same state and the key Linen hands out for the stream"""
+  class NoisyScale(nnx.Module):
+    def __init__(self, rate=0.5, seed=0):
+      self.scale = nnx.Param(jnp.full((16,), 2.0))
+      self.dropout = nnx.Dropout(rate, rngs=nnx.Rngs(dropout=seed))
+
+    def __call__(self, x):
+      return self.dropout(x * self.scale)
+
+  class Probe(nn.Module):
+    def __call__(self):
+      return self.make_rng('dropout')
+  bad = []
+  try:
+    x = jnp.ones((8, 16))
+    k1, k2 = jax.random.key(10), jax.random.key(11)
+    model = bridge.ToLinen(NoisyScale, kwargs=dict(rate=0.5, seed=3), skip_rng=True)
+    variables = model.init({'params': jax.random.key(0), 'dropout': jax.random.key(1)}, x)
+    y1 = np.asarray(model.apply(variables, x, rngs={'dropout': k1}))
+    y1b = np.asarray(model.apply(variables, x, rngs={'dropout': k1}))
+    y2 = np.asarray(model.apply(variables, x, rngs={'dropout': k2}))
+    ref = NoisyScale(rate=0.5, seed=3)
+    nnx.reseed(ref, dropout=Probe().apply({}, rngs={'dropout': k1}))
+    yr = np.asarray(ref(x))
+    if not np.array_equal(y1, y1b):
+      bad.append({'what': 'same variables and same dropout key, different outputs'})
+    if not np.array_equal(y1, yr):
+      bad.append({'what': 'differs from the NNX module with the same state and the key Linen hands out', 'wrapper_row0': y1[0].tolist(), 'nnx_row0': yr[0].tolist()})
+    if np.array_equal(y1, y2):
+      bad.append({'what': 'two different dropout keys gave the same mask: the rngs passed to apply are ignored'})
+  except Exception as e:  # pylint: disable=broad-except
+    bad.append({'exc': type(e).__name__, 'msg': str(e)[:200]})
   return bad
 
 
